@@ -7,6 +7,8 @@
 From Coq Require Import ZArith List Bool String.
 From PS.model Require Import Smt Enc Prog.
 Import ListNotations.
+Open Scope string_scope.
+Open Scope list_scope.
 Open Scope Z_scope.
 
 (* a task acts in a schedule iff it is mandatory or its scheduled flag is set *)
@@ -43,4 +45,326 @@ Definition keyed (prefix : string) (l : list (string * form)) : list (string * f
 Definition spec_C01 (st : pstate) : list (string * form) :=
   flat_map (fun t => keyed ("C01/task:" ++ show_nat (ti_id t) ++ "/") (spec_C01_task st t)) (ps_tasks st).
 
-Definition spec_all (st : pstate) : list (string * form) := spec_C01 st.
+
+(* ================================================================== *)
+(* Constraints: clauses are produced per constraint record.  "P" lists are
+   the clauses covered by the soundness theorem of the property, "S" lists
+   are swept against the real constraint system only (proof pending or
+   refuted on the pinned code; see known_findings.json).               *)
+
+Definition mandatory_live (c : conrec) : bool := negb (c_opt c) && negb (c_flag c).
+Definition ckey (p : string) (c : conrec) (k : string) : string :=
+  (p ++ "/cons:" ++ show_nat (c_id c) ++ "/" ++ k)%string.
+
+Definition allact (ts : list tinfo) : form := FAnd (map act ts).
+
+Definition inside_any (t : tinfo) (ivs : list (Z * Z)) : form :=
+  FOr (map (fun '(lo, hi) => FAnd [FLe (TC lo) (S_ t); FLe (E_ t) (TC hi)]) ivs).
+
+(* all ordered pairs (x, y) with x before y in the list *)
+Fixpoint pairs_of {A} (l : list A) : list (A * A) :=
+  match l with [] => [] | x :: r => map (pair x) r ++ pairs_of r end.
+(* every element with the list of the others *)
+Fixpoint with_others {A} (pre l : list A) : list (A * list A) :=
+  match l with [] => [] | x :: r => (x, pre ++ r) :: with_others (pre ++ [x]) r end.
+
+(* a negative offset / delay is ignored by the library (and rejected at creation where validated) *)
+Definition nonneg_part (z : Z) : Z := if z >? 0 then z else 0.
+
+(* ---------------- C03: task constraints ---------------- *)
+Definition spec_C03_P (e : rcexpr) : list (string * form) :=
+  match e with
+  | CStartAt t v => [("start_at", whenact t (FEq (S_ t) (TC v)))]
+  | CStartAfter t v strict =>
+      [("start_after", whenact t (if strict then FLt (TC v) (S_ t) else FLe (TC v) (S_ t)))]
+  | CEndAt t v => [("end_at", whenact t (FEq (E_ t) (TC v)))]
+  | CEndBefore t v strict =>
+      [("end_before", whenact t (if strict then FLt (E_ t) (TC v) else FLe (E_ t) (TC v)))]
+  | CPrecedence tb ta off k =>
+      [("precedence", whenact2 tb ta (prec_rel k (TAdd [E_ tb; TC (nonneg_part off)]) (S_ ta)))]
+  | CStartSynced a b => [("start_synced", whenact2 a b (FEq (S_ a) (S_ b)))]
+  | CEndSynced a b => [("end_synced", whenact2 a b (FEq (E_ a) (E_ b)))]
+  | CDontOverlap a b => [("dont_overlap", whenact2 a b (FOr [FLe (E_ a) (S_ b); FLe (E_ b) (S_ a)]))]
+  | CUGroup ts win len | COGroup ts win len _ =>
+      (match win with
+       | Some (lo, hi) => map (fun t => ("group_window", whenact t (FAnd [FLe (TC lo) (S_ t); FLe (E_ t) (TC hi)]))) ts
+       | None =>
+           match len with
+           | Some l => map (fun '(a, b) => ("group_length", whenact2 a b (FLe (TSub (E_ a) (S_ b)) (TC l))))
+                           (list_prod ts ts)
+           | None => [] end
+       end)
+      ++ (match e with
+          | COGroup _ _ _ k => map (fun '(a, b) => ("group_order", whenact2 a b (prec_rel k (E_ a) (S_ b)))) (consec_tasks ts)
+          | _ => [] end)
+  | CScheduleN ts n ivs k =>
+      match k with
+      | PbMin | PbExact => [("scheduleN_lower", FPbGe (map (fun t => inside_any t ivs) ts) n)]
+      | PbMax => [] end
+  | _ => []
+  end.
+
+Definition positive_duration (t : tinfo) : bool :=
+  match ti_kind t with KZero => false | KFixed d => 1 <=? d | KVar mn _ _ => 1 <=? mn end.
+
+Definition spec_C03_S (e : rcexpr) : list (string * form) :=
+  match e with
+  | CContiguous ts =>
+      (* all named tasks acting, positive durations: pairwise disjoint, and every task
+         except the one starting last is immediately followed by another one *)
+      if forallb positive_duration ts then
+        map (fun '(a, b) => ("contiguous_disjoint", FImp (allact ts) (FOr [FLe (E_ a) (S_ b); FLe (E_ b) (S_ a)]))) (pairs_of ts)
+        ++ map (fun '(t, others) =>
+                  ("contiguous_successor",
+                   FImp (allact ts) (FOr [FAnd (map (fun u => FLe (S_ u) (S_ t)) others);
+                                          FOr (map (fun u => FEq (S_ u) (E_ t)) others)]))) (with_others [] ts)
+      else []
+  | CScheduleN ts n ivs k =>
+      match k with
+      | PbMax | PbExact => [("scheduleN_upper", FPbLe (map (fun t => inside_any t ivs) ts) n)]
+      | PbMin => [] end
+  | _ => []
+  end.
+
+(* ---------------- C06: rules on the scheduling of optional tasks ---------------- *)
+Definition spec_C06_P (e : rcexpr) : list (string * form) :=
+  match e with
+  | CForceSched t b => [("force_schedule", FIff (act t) (if b then FT else FF))]
+  | CCondSched t cond => [("condition_schedule", FIff (act t) cond)]
+  | CDependency a b => [("dependency", FIff (act a) (act b))]
+  | CForceN ts n k => [("force_n", pb k (map act ts) n)]
+  | _ => []
+  end.
+
+(* ---------------- C10: logic and optional constraints ---------------- *)
+Definition spec_C10_P (e : rcexpr) : list (string * form) :=
+  match e with
+  | CNot x => [("not", FNot (op_meaning x))]
+  | COr xs => [("or", FOr (map op_meaning xs))]
+  | CAnd xs => [("and", FAnd (map op_meaning xs))]
+  | CXor x y => [("xor", FXor (op_meaning x) (op_meaning y))]
+  | CImplies c xs => [("implies", FImp c (FAnd (map op_meaning xs)))]
+  | CIte c xs ys => [("if_then_else", FIte c (FAnd (map op_meaning xs)) (FAnd (map op_meaning ys)))]
+  | CExpr f => [("expression", f)]
+  | CForceApplyN cs n k => [("force_apply_n", pb k (map (fun o => FB (BApplied (or_id o))) cs) n)]
+  | _ => []
+  end.
+
+(* ---------------- C04: resource constraints ---------------- *)
+Definition t_max a b := TIte (FLe a b) b a.
+Definition t_min a b := TIte (FLe a b) a b.
+Definition t_overlap (s e : term) (lo hi : Z) : term := t_max (TC 0) (TSub (t_min e (TC hi)) (t_max s (TC lo))).
+
+Definition spec_C04_P (e : rcexpr) : list (string * form) :=
+  match e with
+  | CUnavailable r ivs =>
+      flat_map (fun '(lo, hi) =>
+        map (fun '(w, b) => ("unavailable", FOr [FLe (TC hi) (bsv w b); FLe (bev w b) (TC lo)])) (all_busy r)) ivs
+  | CWorkLoad r ivs k =>
+      if forallb (fun '(lo, hi, _) => lo <=? hi) ivs then
+        map (fun '(lo, hi, n) =>
+          ("workload", cmp_sum k (TAdd (map (fun '(w, b) => t_overlap (bsv w b) (bev w b) lo hi) (all_busy r))) n)) ivs
+      else []
+  | CInterrupted r ivs =>
+      flat_map (fun '(w, b) =>
+        match ti_kind (be_task b) with
+        | KVar _ _ _ => []
+        | _ => map (fun '(lo, hi) => ("interrupted_fixed", FOr [FLe (TC hi) (bsv w b); FLe (bev w b) (TC lo)])) ivs
+        end) (all_busy r)
+  | CSameWorkers s1 s2 =>
+      map (fun r => ("same_workers", FIff (FB (BSel (s_ref s1) r)) (FB (BSel (s_ref s2) r)))) (common_sel s1 s2)
+  | CDistinctWorkers s1 s2 =>
+      map (fun r => ("distinct_workers", FNot (FAnd [FB (BSel (s_ref s1) r); FB (BSel (s_ref s2) r)]))) (common_sel s1 s2)
+  | _ => []
+  end.
+
+Definition per_cons (p : string) (F : rcexpr -> list (string * form)) (st : pstate) : list (string * form) :=
+  flat_map (fun c => if mandatory_live c then map (fun '(k, f) => (ckey p c k, f)) (F (c_expr c)) else []) (ps_cons st).
+
+Definition spec_C03 (st : pstate) := per_cons "C03" spec_C03_P st.
+Definition spec_C03_swept (st : pstate) := per_cons "C03" spec_C03_S st.
+Definition spec_C06_rules (st : pstate) := per_cons "C06" spec_C06_P st.
+Definition spec_C10 (st : pstate) := per_cons "C10" spec_C10_P st.
+Definition spec_C04 (st : pstate) := per_cons "C04" spec_C04_P st.
+
+(* ---------------- C02: resources ---------------- *)
+
+Definition spec_C02_areq (t : tinfo) (a : areq) : list (string * form) :=
+  let id := ti_id t in
+  match a with
+  | AQDirect w dyn di eo =>
+      let r := RW w in
+      if dyn then [("dynamic_span", whenact t (FAnd [FLe (S_ t) (BS r id false); FLe (BS r id false) (BE r id false);
+                                                      FLe (BE r id false) (E_ t)]))]
+      else [("static_span", whenact t (FAnd [FEq (BS r id false) (TAdd [S_ t; TC (nonneg_part di)]);
+                                             FEq (BE r id false) (TSub (E_ t) (TC (nonneg_part eo)))]))]
+  | AQSelect s listed n k =>
+      ("selection_count", pb k (map (fun '(r, _) => FB (BSel s r)) listed) n)
+      :: flat_map (fun '(r, _) =>
+           [("selected_span", FImp (FB (BSel s r)) (FAnd [FEq (BS r id true) (S_ t); FEq (BE r id true) (E_ t)]));
+            ("unselected_idle", FImp (FNot (FB (BSel s r))) (FAnd [FEq (BS r id true) (BE r id true); FLt (BE r id true) (TC 0)]))])
+           listed
+  end.
+
+Definition spec_C02_overlap (st : pstate) : list (string * form) :=
+  flat_map (fun w =>
+    map (fun '((ti, mi), (tk, mk)) =>
+           (("C02/worker:" ++ show_wref (w_ref w) ++ "/exclusive")%string,
+            FOr [FLe (BE (RW (w_ref w)) ti mi) (BS (RW (w_ref w)) tk mk);
+                 FLe (BE (RW (w_ref w)) tk mk) (BS (RW (w_ref w)) ti mi)]))
+        (pairs_of (busy_of st (RW (w_ref w))))) (ps_workers st).
+
+Definition spec_C02_work (st : pstate) : list (string * form) :=
+  flat_map (fun t => map (fun f => (("C02/task:" ++ show_nat (ti_id t) ++ "/work_amount")%string, f)) (work_assert st t))
+           (ps_tasks st).
+
+Definition spec_C02 (st : pstate) : list (string * form) :=
+  flat_map (fun t => keyed ("C02/task:" ++ show_nat (ti_id t) ++ "/")
+                           (flat_map (spec_C02_areq t) (areqs_of st (ti_id t)))) (ps_tasks st)
+  ++ spec_C02_overlap st ++ spec_C02_work st.
+
+(* cumulative capacity (swept; proof: pigeonhole over unit workers, pending):
+   at the start of every use, the number of uses covering that instant is at most the size *)
+Definition cumul_uses (st : pstate) (c : curec) : list tinfo :=
+  filter (fun t => existsb (fun a => match a with
+                                     | AQSelect (SAuto _) ((RW (WUnit c' _), _) :: _) _ _ => Nat.eqb c' (cu_id c)
+                                     | _ => false end) (areqs_of st (ti_id t))) (ps_tasks st).
+Definition spec_C02_capacity (st : pstate) : list (string * form) :=
+  flat_map (fun c =>
+    let us := cumul_uses st c in
+    map (fun t => (("C02/cumulative:" ++ show_nat (cu_id c) ++ "/capacity")%string,
+                   FImp (FAnd [act t; FLt (S_ t) (E_ t)])
+                        (FPbLe (map (fun u => FAnd [act u; FLe (S_ u) (S_ t); FLt (S_ t) (E_ u)]) us) (Z.of_nat (cu_size c))))) us)
+    (ps_cumuls st).
+
+(* ---------------- C06: an unscheduled task occupies no worker ---------------- *)
+Definition spec_C06_inert (st : pstate) : list (string * form) :=
+  flat_map (fun t =>
+    if ti_opt t then
+      flat_map (fun a => match a with
+        | AQDirect w _ _ _ => [(("C06/task:" ++ show_nat (ti_id t) ++ "/inert_busy")%string,
+                                FImp (FNot (act t)) (FLt (BE (RW w) (ti_id t) false) (TC 0)))]
+        | AQSelect s listed _ _ =>
+            map (fun '(r, _) => (("C06/task:" ++ show_nat (ti_id t) ++ "/inert_busy")%string,
+                                 FImp (FNot (act t)) (FLt (BE r (ti_id t) true) (TC 0)))) listed
+        end) (areqs_of st (ti_id t))
+    else []) (ps_tasks st).
+
+Definition spec_C06 (st : pstate) := spec_C06_rules st ++ spec_C06_inert st.
+
+(* ---------------- C04, final problem: busy intervals added to the resource *after* the
+   constraint was created are covered by the documented meaning as well (swept) ---------------- *)
+Definition busy_key (wb : wref * busyent) : wref * nat * bool := (fst wb, ti_id (be_task (snd wb)), be_maybe (snd wb)).
+Definition same_busy (a b : wref * busyent) : bool :=
+  let '(w1, t1, m1) := busy_key a in let '(w2, t2, m2) := busy_key b in
+  wref_beq w1 w2 && Nat.eqb t1 t2 && Bool.eqb m1 m2.
+Definition late_busy (st : pstate) (r : rsnap) : list (wref * busyent) :=
+  match res_resobj st (rs_obj r) with
+  | Some r' => filter (fun x => negb (existsb (same_busy x) (all_busy r))) (all_busy r')
+  | None => [] end.
+Definition spec_C04_late_c (st : pstate) (e : rcexpr) : list (string * form) :=
+  match e with
+  | CUnavailable r ivs =>
+      flat_map (fun '(lo, hi) =>
+        map (fun '(w, b) => ("unavailable_late", FOr [FLe (TC hi) (bsv w b); FLe (bev w b) (TC lo)])) (late_busy st r)) ivs
+  | CWorkLoad r ivs k =>
+      match late_busy st r, res_resobj st (rs_obj r) with
+      | _ :: _, Some r' =>
+        map (fun '(lo, hi, n) =>
+          ("workload_late", cmp_sum k (TAdd (map (fun '(w, b) => t_overlap (bsv w b) (bev w b) lo hi) (all_busy r'))) n)) ivs
+      | _, _ => [] end
+  | CInterrupted r ivs =>
+      flat_map (fun '(w, b) =>
+        match ti_kind (be_task b) with
+        | KVar mn mx _ =>
+            let ov := TAdd (map (fun '(lo, hi) =>
+                        TIte (FAnd [FLt (bsv w b) (TC hi); FGt (bev w b) (TC lo)]) (TC (hi - lo)) (TC 0)) ivs) in
+            flat_map (fun '(lo, hi) =>
+               [("interrupted_var_ends", FAnd [FOr [FLe (bsv w b) (TC lo); FLe (TC hi) (bsv w b)];
+                                               FOr [FLe (bev w b) (TC lo); FLe (TC hi) (bev w b)]])]) ivs
+            ++ [("interrupted_var_min", FLe (TAdd [TC mn; ov]) (D_ (be_task b)))]
+            ++ (match mx with Some m => [("interrupted_var_max", FLe (D_ (be_task b)) (TAdd [TC m; ov]))] | None => [] end)
+        | _ => []
+        end) (all_busy r) ++
+      flat_map (fun '(w, b) =>
+        match ti_kind (be_task b) with
+        | KVar _ _ _ => []
+        | _ => map (fun '(lo, hi) => ("interrupted_late", FOr [FLe (TC hi) (bsv w b); FLe (bev w b) (TC lo)])) ivs
+        end) (late_busy st r)
+  | _ => []
+  end.
+Definition spec_C04_swept (st : pstate) := per_cons "C04" (spec_C04_late_c st) st.
+
+Definition spec_all (st : pstate) : list (string * form) :=
+  spec_C01 st ++ spec_C02 st ++ spec_C02_capacity st ++ spec_C03 st ++ spec_C03_swept st
+  ++ spec_C04 st ++ spec_C04_swept st ++ spec_C06 st ++ spec_C10 st.
+
+(* ================================================================== *)
+(* C18: which constructor calls are well formed (the rule list of the property text, completed by
+   the field constraints the classes declare).  References to elements that do not exist are outside
+   the model (the harness only passes existing Python objects). *)
+Definition absent {A} (x : option A) : bool := match x with None => true | Some _ => false end.
+Definition is_nil {A} (l : list A) : bool := match l with [] => true | _ => false end.
+
+Definition wf_task_fields (k : tkind) (work prio : Z) : bool :=
+  (0 <=? work) && (0 <=? prio) &&
+  match k with
+  | KZero => true
+  | KFixed d => 1 <=? d                                            (* positive fixed duration *)
+  | KVar mn mx al => (0 <=? mn)                                    (* non-negative minimum duration *)
+                     && (match mx with Some m => 1 <=? m | None => true end)
+                     && (match al with Some l => forallb (fun a => 1 <=? a) l | None => true end)
+  end.
+
+(* a resource constraint needs a resource that already works for some task *)
+Definition has_busy (r : rsnap) : bool := negb (is_nil (all_busy r)).
+
+Definition wf_constraint (c : nat) (opt : bool) (e : rcexpr) : bool :=
+  match e with
+  | CPrecedence _ _ off _ => 0 <=? off
+  (* optional-task rules only apply to optional tasks *)
+  | CForceSched t _ | CCondSched t _ => ti_opt t
+  | CDependency _ dependent => ti_opt dependent
+  | CForceN ts n _ => forallb ti_opt ts && (1 <=? n) && negb (is_nil ts)
+  | CScheduleN ts _ ivs _ => negb (is_nil ts) && negb (is_nil ivs)
+  (* force-apply only over optional constraints *)
+  | CForceApplyN cs n _ => forallb or_opt cs && (1 <=? n) && negb (is_nil cs)
+  (* resource constraints on an unassigned resource *)
+  | CWorkLoad r ivs _ => is_nil ivs || has_busy r
+  | CUnavailable r ivs => has_busy r && negb (is_nil ivs)
+  | CPeriodicUnavailable r ivs _ _ _ _ => has_busy r && negb (is_nil ivs)
+  | CInterrupted r _ => has_busy r
+  | CPeriodicInterrupted r ivs period start _ end_ =>
+      has_busy r && forallb (fun '(lo, hi) => hi <=? period) ivs
+      && (negb ((start >? 0) || (match end_ with Some _ => true | None => false end))
+          || negb (match rs_units r with (_, []) :: _ => true | _ => false end))
+  | CDistance r _ _ _ => 2 <=? Z.of_nat (List.length (rs_own r))
+  | CIndBounds _ lo hi => negb (absent lo && absent hi)
+  | _ => true
+  end
+  (* the same formula is never appended twice to one element (NonDelay / Contiguous over fewer than
+     two busy intervals / tasks, duplicated windows, ...) *)
+  && nodup_forms (enc_cons c opt e).
+
+Definition wf_op (st : pstate) (o : op) : bool :=
+  match o with
+  | ONewProblem h => match h with Some z => 1 <=? z | None => true end
+  | ONewTask id k _ work _ _ _ prio => absent (find_task st id) && wf_task_fields k work prio
+  | ONewWorker id prod _ => absent (find_worker st (WPlain id)) && (0 <=? prod)
+  | ONewCumulative id size prod cost =>
+      absent (find_cumul st id) && (2 <=? size) && (1 <=? prod)
+      && (match cost with CostConst _ => true | _ => false end)
+  | ONewSelect id listed n _ =>
+      absent (find_select st (SUser id)) && (2 <=? Z.of_nat (List.length listed))
+      && (1 <=? n) && (n <=? Z.of_nat (List.length listed))
+  | OAddRequired t r _ _ _ =>
+      match r with
+      | ArgW w => negb (existsb (rref_beq (RW w)) (reqs_of st t))
+      | ArgS s => negb (existsb (fun a => match a with AQSelect s' _ _ _ => sref_beq s' (SUser s) | _ => false end)
+                                (areqs_of st t))
+      | ArgC _ => true
+      end
+  | ONewConstraint id opt e =>
+      absent (find_cons st id)
+      && match resolve st e with Some re => wf_constraint id opt re | None => true end
+  end.
